@@ -138,7 +138,7 @@ Qed.
 
 (* events of the dispatch loop *)
 Definition dispev (x : gev) : bool :=
-  match x with GGet _ | GSnap _ _ | GTurn _ | GCb _ _ _ | GTaskDone => true | _ => false end.
+  match x with GGet (QEv _ _) | GSnap _ _ | GTurn _ | GCb _ _ _ => true | _ => false end.
 
 (* an instruction outside the dispatch loop: no dispatch event, the loop position is unchanged *)
 Lemma exec_nond s t i k inp s' : is_d i = false -> exec s t i k inp = Some s' -> raise_ok (i :: k) = true ->
@@ -181,6 +181,7 @@ Lemma dl_nondisp new g : forallb (fun x => negb (dispev x)) new = true -> dl (ne
 Proof.
   induction new as [|x new IH]; simpl; auto. intros H. apply andb_true_iff in H as [H1 H2].
   rewrite IH by auto. destruct x; simpl in H1; try discriminate; auto.
+  destruct q; simpl in H1; try discriminate; auto.
 Qed.
 
 Lemma memN_In x l : memN x l = true <-> In x l.
@@ -346,3 +347,188 @@ Qed.
 
 Lemma P3_reachable s : reachable s -> P3 s.
 Proof. apply reach_P; [apply P3_exec | apply P3_call | apply P3_em | apply P3_init]. Qed.
+
+(* ------------------------------------------------------------------ C04: delivered = dequeued, filtered *)
+Definition selw (w : watch) (r : drec) : bool := N.eqb w (rw r).
+Definition had_turn (h : handler) (r : drec) : bool := existsb (fun p => N.eqb h (fst p) && snd p) (rturns r).
+Definition sel (h : handler) (w : watch) (r : drec) : bool := selw w r && had_turn h r.
+
+Definition fc (h : handler) (w : watch) (g : gev) : list event :=
+  match g with GCb h' w' e => if N.eqb h h' && N.eqb w w' then [e] else [] | _ => [] end.
+
+Lemma delivered_proj h w s : delivered h w s = flat_map (fc h w) (rev (glog s)).
+Proof. reflexivity. Qed.
+
+Lemma dl_head_same_key (p : drec -> bool) r r' ds :
+  re r' = re r -> p r' = p r -> map re (filter p (rev (r' :: ds))) = map re (filter p (rev (r :: ds))).
+Proof.
+  intros E1 E2. simpl. rewrite !filter_app, !map_app. simpl. rewrite E2. destruct (p r); simpl; rewrite ?E1; reflexivity.
+Qed.
+
+(* the dequeued events of w are the dispatches of w, oldest first *)
+Lemma dequeued_dl g w : flat_map (fd w) (rev g) = map re (filter (selw w) (rev (dl g))).
+Proof.
+  induction g as [|x g IH]; simpl; auto. rewrite flat_map_app. simpl. rewrite app_nil_r, IH.
+  destruct x; simpl; rewrite ?app_nil_r; auto.
+  - destruct q; simpl; rewrite ?app_nil_r; auto.
+    rewrite filter_app, map_app. simpl. unfold selw. simpl. destruct (N.eqb w w0); reflexivity.
+  - destruct (dl g) as [|r ds]; simpl; rewrite ?app_nil_r; auto.
+    symmetry. apply (dl_head_same_key (selw w)); reflexivity.
+  - destruct (dl g) as [|r ds]; simpl; rewrite ?app_nil_r; auto.
+    symmetry. apply (dl_head_same_key (selw w)); reflexivity.
+Qed.
+
+Definition DelivInv (s : state) : Prop :=
+  forall h w, flat_map (fc h w) (rev (glog s)) = map re (filter (sel h w) (rev (dl (glog s)))).
+
+Lemma fc_nondisp h w new g : forallb (fun x => negb (dispev x)) new = true ->
+  flat_map (fc h w) (rev (new ++ g)) = flat_map (fc h w) (rev g).
+Proof.
+  induction new as [|x new IH]; simpl; auto. intros H. apply andb_true_iff in H as [H1 H2].
+  rewrite flat_map_app, IH by auto. destruct x; simpl in H1; try discriminate; simpl; try apply app_nil_r.
+Qed.
+
+Lemma DelivInv_frame s s' new : DelivInv s -> glog s' = new ++ glog s ->
+  forallb (fun x => negb (dispev x)) new = true -> DelivInv s'.
+Proof.
+  intros H Eg Hn h w. rewrite Eg. rewrite fc_nondisp by auto. rewrite dl_nondisp by auto. apply H.
+Qed.
+
+Lemma deliv_step_other h w x g : fc h w x = [] ->
+  flat_map (fc h w) (rev (x :: g)) = flat_map (fc h w) (rev g).
+Proof. intros E. simpl. rewrite flat_map_app. simpl. rewrite E. rewrite !app_nil_r. reflexivity. Qed.
+
+Lemma had_turn_false h r : ~ In h (map fst (rturns r)) -> had_turn h r = false.
+Proof.
+  unfold had_turn. intros H.
+  destruct (existsb (fun p : handler * bool => (h =? fst p)%N && snd p) (rturns r)) eqn:E; auto.
+  apply existsb_exists in E as [p [Hp E]]. apply andb_true_iff in E as [E _]. apply N.eqb_eq in E.
+  exfalso. apply H. subst. apply in_map. exact Hp.
+Qed.
+
+Local Opaque remN.
+Lemma DelivInv_exec s t i k inp s' : P3 s -> RegInv s -> DelivInv s -> cont s t = i :: k ->
+  exec s t i k inp = Some s' -> DelivInv s'.
+Proof.
+  intros [HL [[HR HN] HD]] [Hreg _] HV Ec H. destruct (is_d i) eqn:Hd.
+  - assert (t = TD).
+    { destruct t; auto. specialize (HN n). rewrite Ec in HN. simpl in HN.
+      rewrite (is_d_barrier _ Hd) in HN. discriminate. }
+    subst t. simpl in Ec.
+    assert (Ea : after_d (dcont s) = i :: k) by (rewrite Ec; simpl; rewrite Hd; reflexivity).
+    unfold DlInv in HD. rewrite Ea in HD.
+    destruct HD as [[Hi Hf] | [[E HD] | [[E HD] | [E HD]]]].
+    + destruct Hi as [Hi | [Hi | [Hi | Hi]]]; inversion Hi; subst; simpl in H.
+      * destruct (dstop s); inversion H; subst; eapply DelivInv_frame with (new := [_]); eauto; reflexivity.
+      * destruct (queue s) as [|[e w|] q]; try discriminate; inversion H; subst.
+        -- intros h w0. cbn [glog say set_dcont set_dcur set_queue set_glog]. rewrite deliv_step_other by reflexivity.
+           rewrite HV. simpl. rewrite filter_app, map_app. simpl.
+           assert (Es : sel h w0 {| re := e; rw := w; rsnap := None; rturns := [] |} = false)
+             by (unfold sel, had_turn; simpl; apply andb_false_r).
+           rewrite Es. simpl. rewrite app_nil_r. reflexivity.
+        -- eapply DelivInv_frame with (new := [_]); eauto; reflexivity.
+      * inversion H; subst. eapply DelivInv_frame with (new := [_]); eauto; reflexivity.
+    + (* DSnap *) inversion E; subst. destruct HD as [e [w [ds' [Eds [Ecur Hf]]]]]. simpl in H. rewrite Ecur in H.
+      inversion H; subst. intros h w0. cbn [glog say set_dcont set_dtodo set_handlers set_glog].
+      rewrite deliv_step_other by reflexivity. rewrite HV. simpl dl. simpl in Eds. rewrite Eds.
+      symmetry. apply (dl_head_same_key (sel h w0)); reflexivity.
+    + (* DTurns *) inversion E; subst. destruct HD as [r [ds' [hs [Eds [Ecur [Esn [Hnd [Hall [Hdis Hf]]]]]]]]].
+      simpl in H. rewrite Ecur in H. destruct (dtodo s) as [|h0 todo] eqn:Et.
+      * inversion H; subst. eapply DelivInv_frame with (new := []); eauto; reflexivity.
+      * destruct inp as [| |h calls]; try discriminate.
+        destruct (memN h (h0 :: todo)) eqn:Em; try discriminate. apply memN_In in Em.
+        assert (Hnot : had_turn h r = false) by (apply had_turn_false; apply Hdis; exact Em).
+        rewrite hset_hauto in H. rewrite Hreg in H. simpl in Eds.
+        assert (Hrhs : forall h' w' b, 
+                  map re (filter (sel h' w') (rev ({| re := re r; rw := rw r; rsnap := rsnap r; rturns := (h, b) :: rturns r |} :: ds')))
+                  = map re (filter (sel h' w') (rev (r :: ds'))) ++ (if N.eqb h' h && N.eqb w' (rw r) && b then [re r] else [])).
+        { intros h' w' b. simpl. rewrite !filter_app, !map_app. simpl. rewrite <- app_assoc. f_equal.
+          unfold sel, selw, had_turn. simpl.
+          match goal with |- context [existsb ?f (rturns r)] => remember (existsb f (rturns r)) as X eqn:EX end.
+          destruct (N.eqb h' h) eqn:Eh; simpl.
+          - apply N.eqb_eq in Eh. subst h'. assert (EX' : X = false) by (subst X; exact Hnot). rewrite EX'. clear EX EX'.
+            destruct (N.eqb w' (rw r)); simpl; auto. destruct b; reflexivity.
+          - destruct (N.eqb w' (rw r)); simpl; [destruct X|]; simpl; rewrite ?app_nil_r; reflexivity. }
+        destruct (reg (glog s) h (rw r)) eqn:Er; inversion H; subst; intros h' w';
+          cbn [glog say set_dcont set_dtodo set_handlers set_glog].
+        -- assert (Edl : dl (GCb h (rw r) (re r) :: GTurn h :: glog s)
+                         = {| re := re r; rw := rw r; rsnap := rsnap r; rturns := (h, true) :: rturns r |} :: ds')
+             by (simpl; rewrite Eds, Er; reflexivity).
+           rewrite Edl, Hrhs, <- Eds, <- HV. simpl rev. rewrite !flat_map_app. simpl. rewrite !app_nil_r, andb_true_r.
+           reflexivity.
+        -- assert (Edl : dl (GTurn h :: glog s)
+                         = {| re := re r; rw := rw r; rsnap := rsnap r; rturns := (h, false) :: rturns r |} :: ds')
+             by (simpl; rewrite Eds, Er; reflexivity).
+           rewrite Edl, Hrhs, <- Eds, <- HV. simpl rev. rewrite !flat_map_app. simpl. rewrite ?andb_false_r. repeat rewrite app_nil_r.
+           reflexivity.
+    + (* DTaskDone *) inversion E; subst. simpl in H. inversion H; subst.
+      eapply DelivInv_frame with (new := [_]); eauto; reflexivity.
+  - assert (Hro : raise_ok (i :: k) = true) by (rewrite <- Ec; apply HR).
+    destruct (exec_nond _ _ _ _ _ _ Hd H Hro) as [[new [Eg Hnd]] _].
+    eapply DelivInv_frame; eauto.
+Qed.
+Local Transparent remN.
+
+Definition P4 (s : state) : Prop := P3 s /\ RegInv s /\ DelivInv s.
+
+Lemma P4_reachable s : reachable s -> P4 s.
+Proof.
+  apply reach_P.
+  - intros s0 t i k inp s' [H3 [Hr Hv]] Ec H. split; [eapply P3_exec; eauto|]. split; [eapply RegInv_exec; eauto|].
+    eapply DelivInv_exec; eauto.
+  - intros s0 n c [H3 [Hr Hv]] Ec. split; [apply P3_call; auto|]. split; [apply RegInv_call; auto|].
+    eapply DelivInv_frame with (new := [_]); eauto; reflexivity.
+  - intros s0 l s' [H3 [Hr Hv]] Hl H. split; [eapply P3_em; eauto|]. split; [eapply RegInv_em; eauto|].
+    destruct (em_step_nondisp _ _ _ Hl H) as [new [Eg Hn]]. eapply DelivInv_frame; eauto.
+  - split; [apply P3_init|]. split; [split; simpl; auto|]. intros h w. reflexivity.
+Qed.
+
+(* C04, main theorem: what handler h received for watch w is exactly, in order, the dequeued events of w
+   in whose dispatch h had a turn while registered for w *)
+Theorem delivered_is_filtered_dequeued s : reachable s -> forall h w,
+  delivered h w s = map re (filter (sel h w) (rev (dl (glog s)))) /\
+  dequeued w s = map re (filter (selw w) (rev (dl (glog s)))).
+Proof.
+  intros Hs h w. destruct (P4_reachable s Hs) as [_ [_ Hv]]. split.
+  - rewrite delivered_proj. apply Hv.
+  - apply dequeued_dl.
+Qed.
+
+(* every dispatch in the log but possibly the one in progress is complete: each handler of its snapshot
+   had exactly one turn, nobody else had one; the one in progress has served a duplicate-free subset *)
+Theorem dispatches_well_formed s : reachable s ->
+  match dl (glog s) with
+  | [] => True
+  | r :: ds =>
+      Forall complete ds /\ NoDup (map fst (rturns r)) /\
+      (forall hs, rsnap r = Some hs -> forall h, In h (map fst (rturns r)) -> In h hs) /\
+      (idle_pos (after_d (dcont s)) -> complete r)
+  end.
+Proof.
+  intros Hs. destruct (P4_reachable s Hs) as [[_ [_ HD]] _]. unfold DlInv in HD.
+  destruct HD as [[Hi Hf] | [[E HD] | [[E HD] | [E HD]]]].
+  - destruct (dl (glog s)) as [|r ds]; auto. inversion Hf; subst.
+    destruct H1 as [hs [E1 [E2 E3]]]. repeat split; auto.
+    + intros hs' E' h Hh. rewrite E1 in E'. inversion E'; subst. apply E3. auto.
+    + intros _. exists hs. auto.
+  - destruct HD as [e [w [ds' [Eds [_ Hf]]]]]. rewrite Eds. simpl. repeat split; auto; try constructor.
+    + intros hs E'. discriminate.
+    + rewrite E. intros [X|[X|[X|X]]]; discriminate.
+  - destruct HD as [r [ds' [hs [Eds [_ [Esn [Hnd [Hall [_ Hf]]]]]]]]]. rewrite Eds. repeat split; auto.
+    + intros hs' E' h Hh. rewrite Esn in E'. inversion E'; subst. apply Hall. auto.
+    + rewrite E. intros [X|[X|[X|X]]]; discriminate.
+  - destruct HD as [r [ds' [Eds [_ [[hs [E1 [E2 E3]]] Hf]]]]]. rewrite Eds. repeat split; auto.
+    + intros hs' E' h Hh. rewrite E1 in E'. inversion E'; subst. apply E3. auto.
+    + intros _. exists hs. auto.
+Qed.
+
+(* a handler is called only by the dispatcher thread, and only while that thread holds the observer lock *)
+Theorem callback_under_lock s t i k inp s' h w e x : reachable s -> cont s t = i :: k ->
+  exec s t i k inp = Some s' -> glog s' = GCb h w e :: x :: glog s ->
+  t = TD /\ exists n, lock s = Some (TD, S n).
+Proof.
+  intros Hs Ec H Hg. destruct (exec_callback _ _ _ _ _ _ _ _ _ _ H Hg) as [Ei _]. subst i.
+  assert (t = TD).
+  { destruct t; auto. destruct (P4_reachable s Hs) as [[_ [[_ HN] _]] _]. specialize (HN n). rewrite Ec in HN. discriminate. }
+  subst t. split; auto. eapply needs_lock_owner; eauto.
+Qed.
